@@ -374,6 +374,92 @@ def r4_recv_size(ctx):
     r.floor(len(callers), 3, 'callers of Codec::set_max_recv_frame_size (client handshake, server handshake, settings ACK)')
 
 
+def r7_payload_range(ctx, rid='C12.R7'):
+    r = ctx.rule(rid, 'FLOW', 'decode_frame hands every loader exactly the bytes after the 9-byte head (range provenance of the frame buffer on every path)')
+    F = ctx.facts
+    d = r.fn('codec::framed_read::decode_frame')
+    if not d:
+        return
+    BY = [i for i in range(1, d.argc + 1) if d.local_ty(i) == 'bytes::BytesMut']
+    if len(BY) != 1:
+        r.bad('payload|anchor', d.file, 'frame buffer argument of decode_frame not found')
+        return
+    by = BY[0]
+
+    def is_buf(e):
+        e = strip(e)
+        return e == ('arg', by)
+
+    def kind_of(e):
+        """'whole-tail' for bytes[9..] , 'self' for the buffer itself (by value / freeze), None when unrelated"""
+        e0 = strip(e)
+        if e0[0] == 'call' and e0[1].endswith('::index') and len(e0[2]) == 2 and any(x == ('arg', by) for x in walk(e0[2][0])):
+            rng = e0[2][1]
+            consts = [c[1] for c in core.consts_in(rng)]
+            if rng[0] == 'aggr' and 'RangeFrom' in str(rng[2]) and consts == [9]:
+                return 'tail9'
+            return 'other-range'
+        if e0 == ('arg', by):
+            return 'self'
+        if e0[0] == 'call' and e0[1].endswith('BytesMut::freeze') and e0[2] and strip(e0[2][0]) == ('arg', by):
+            return 'self'
+        if any(x == ('arg', by) for x in walk(e0)) and e0[0] == 'call' and e0[1].endswith(('BytesMut::split_off', 'BytesMut::split_to')):
+            return 'split:' + e0[1].rsplit('::', 1)[-1] + ':' + ','.join(str(c[1]) for c in core.consts_in(e0[2][1]))
+        return None
+
+    sites = []
+
+    def on_term(us, bi, t):
+        if t['k'] != 'call':
+            return us
+        fn = t['fn']
+        if fn.endswith('Buf>::advance') or fn.endswith('Buf::advance'):
+            if t['a'] and is_buf(d.expr_of_op(t['a'][0])):
+                c = strip(d.expr_of_op(t['a'][1]))
+                return 'P' if (us == 'W' and c[0] == 'const' and c[1] == 9) else 'X'
+        if fn.endswith('BytesMut::split_off') and t['a'] and is_buf(d.expr_of_op(t['a'][0])):
+            return 'H' if us == 'W' else 'X'
+        if fn.endswith('BytesMut::split_to') and t['a'] and is_buf(d.expr_of_op(t['a'][0])):
+            return 'P' if us == 'W' else 'X'
+        consumer = (fn.startswith('frame::') and fn.endswith('::load')) or fn.endswith('BytesMut::extend_from_slice')
+        if consumer:
+            for a in t['a']:
+                k = kind_of(d.expr_of_op(a))
+                if k is not None:
+                    sites.append((bi, fn, k, us))
+        return us
+
+    def on_stmt(us, bi, si, pl, rv):
+        if core.write_target(d, pl) == ('codec::framed_read::Partial', 'buf'):
+            k = kind_of(d.expr_of_rvalue(rv))
+            if k is not None:
+                sites.append((bi, 'Partial.buf =', k, us))
+        return us
+    try:
+        core.scan(d, 'W', on_stmt, on_term, cap=64, track_ret=False)
+    except core.Cap as e:
+        r.bad('payload|cap', d.file, str(e))
+        return
+    seen = set()
+    for bi, fn, k, us in sites:
+        key = (fn, k, us)
+        if key in seen:
+            continue
+        seen.add(key)
+        if k == 'tail9':
+            ok = us == 'W'
+        elif k == 'self':
+            ok = us == 'P'
+        elif k.startswith('split:'):
+            ok = k == 'split:split_off:9' and us in ('W', 'H')   # evaluated after the call moved the buffer state
+        else:
+            ok = False
+        r.check(ok, 'payload|%s|%s|%s' % (fn.split('::')[-2] + '::' + fn.split('::')[-1] if '::' in fn else fn, k, us), d.loc(bi),
+                '%s receives %s while the frame buffer is %s%s' % (fn, {'tail9': 'bytes[9..]', 'self': 'the buffer itself'}.get(k, k), {'W': 'whole (head + payload)', 'P': 'advanced past the head', 'H': 'cut down to the head', 'X': 'in an unexpected state'}[us],
+                                                                    '' if ok else ' — the loader is not given the payload (the 9-byte head, or a shifted range, is decoded as payload)'))
+    r.floor(len(seen), 10, 'loader / reassembly sites fed from the frame buffer')
+
+
 def r6_final_flush(ctx, rid='C12.R6'):
     r = ctx.rule(rid, 'GUARD', 'close: the final flush is marked done only after flush() returned Ready(Ok); the transport is shut down only behind it')
     F = ctx.facts
@@ -406,6 +492,7 @@ def r6_final_flush(ctx, rid='C12.R6'):
 
 def run(ctx):
     r6_final_flush(ctx)
+    r7_payload_range(ctx)
     r1_tables(ctx)
     r2_head(ctx)
     r3_send_size(ctx)
